@@ -105,6 +105,10 @@ pub const ZERO_SIZED: &[(&str, &str, &[usize], usize)] = &[
     ("join_iter of two empty arrays", "pub fn main(a: [(u8, u8); 0], b: [(u8, u8); 0], z: u8) -> u8 {\n  let mut s = z;\n  for (x, y) in join_iter(a, b) {\n    s = s + 1u8;\n  }\n  s\n}\n", &[0, 0, 8], 8),
     ("join_iter of an empty and a non-empty array", "pub fn main(a: [(u8, u8); 0], b: [(u8, u8); 2], z: u8) -> u8 {\n  let mut s = z;\n  for (x, y) in join_iter(a, b) {\n    s = s + 1u8;\n  }\n  s\n}\n", &[0, 32, 8], 8),
     ("join of an empty and a non-empty array", "pub fn main(a: [u8; 0], b: [u8; 2], z: u8) -> [(bool, u8); 1] {\n  join(a, b)\n}\n", &[0, 16, 8], 9),
+    ("unit result after a failing operation", "pub fn main(x: u8, y: u8) -> () {\n  let z = x / y;\n  ()\n}\n", &[8, 8], 0),
+    ("unit result after an index and an addition", "pub fn main(a: [u8; 2], i: usize) -> () {\n  let mut b = a;\n  b[i] = b[i] + 1u8;\n}\n", &[16, 32], 0),
+    ("empty array result after a shift", "pub fn main(x: u8, s: u8) -> [u8; 0] {\n  let z = x << s;\n  [z; 0]\n}\n", &[8, 8], 0),
+    ("empty struct result after a multiplication", "struct Z {}\npub fn main(x: i8, y: i8) -> Z {\n  let z = x * y;\n  Z {}\n}\n", &[8, 8], 0),
     ("join a wider n2m1", "pub fn main(a: [(u8, u16); 2], b: [(u8, u8); 1]) -> [(bool, (u8, u16), (u8, u8)); 2] {\n  join(a, b)\n}\n", &[48, 16], 82),
     ("join a wider n1m2", "pub fn main(a: [(u8, u16); 1], b: [(u8, u8); 2]) -> [(bool, (u8, u16), (u8, u8)); 2] {\n  join(a, b)\n}\n", &[24, 32], 82),
     ("join a wider n3m2", "pub fn main(a: [(u8, u16, bool); 3], b: [(u8, u8); 2]) -> [(bool, (u8, u16, bool), (u8, u8)); 4] {\n  join(a, b)\n}\n", &[75, 32], 168),
